@@ -27,12 +27,12 @@ impl<T: RealNumber> RandomForestClassifier<T> {
                 self.wf(), x.mwf(), row < x.nrows_spec(),
                 result@.len() == self.k(),
                 VERUS_ghost_iter.index@ <= self.ntrees(),
-                VERUS_ghost_iter.seq().len() == self.ntrees(), self.ntrees() <= usize::MAX,
+                VERUS_ghost_iter.seq().len() == self.ntrees(), self.ntrees() <= usize::MAX, //# inv-the-loop-visits-every-tree
                 forall|c: int| 0 <= c < self.k() ==> #[trigger] result@[c]
                     == count_range(self.votes_for(x, row, c), VERUS_ghost_iter.index@ as int), //# inv-tally-counts-votes-of-trees-seen
                 // all trees consumed: the tally is the vote count
                 VERUS_ghost_iter.index@ == VERUS_ghost_iter.seq().len()
-                    ==> forall|c: int| #![trigger result@[c]] #![trigger self.votes(x, row, c)] 0 <= c < self.k() ==> result@[c] == self.votes(x, row, c),
+                    ==> forall|c: int| #![trigger result@[c]] #![trigger self.votes(x, row, c)] 0 <= c < self.k() ==> result@[c] == self.votes(x, row, c), //# inv-after-the-last-tree-the-tally-is-the-vote-count
 //@loopbody 1
             proof {
                 let a = VERUS_ghost_iter.index@ as int;
@@ -64,7 +64,7 @@ impl<T: RealNumber> RandomForestClassifier<T> {
                     == count_range(self.oob_votes_for(x, row, c), VERUS_ghost_iter.index@ as int), //# inv-tally-counts-votes-of-oob-trees-seen
                 // all trees consumed: the tally is the out-of-bag vote count
                 VERUS_ghost_iter.index@ == VERUS_ghost_iter.seq().len()
-                    ==> forall|c: int| #![trigger result@[c]] #![trigger self.oob_votes(x, row, c)] 0 <= c < self.k() ==> result@[c] == self.oob_votes(x, row, c),
+                    ==> forall|c: int| #![trigger result@[c]] #![trigger self.oob_votes(x, row, c)] 0 <= c < self.k() ==> result@[c] == self.oob_votes(x, row, c), //# inv-after-the-last-tree-the-tally-is-the-oob-vote-count
 //@loopbody 1
             proof {
                 let a = VERUS_ghost_iter.index@ as int;
